@@ -249,6 +249,8 @@ func NewWorld(mintingDenom string) *World {
 	return w
 }
 
+func (w *World) jsonCdc() codec.JSONCodec { return w.cdc.(codec.JSONCodec) }
+
 // Fund credits an account out of thin air (test set-up, not a chain operation).
 func (w *World) Fund(addr []byte, denom string, amt math.Int) {
 	w.ledgerSet(w.ctx, balKey(addr, denom), w.ledgerGet(w.ctx, balKey(addr, denom)).Add(amt))
